@@ -296,17 +296,33 @@ func (x *Exec) mergeVal(a, b Value, c *Term) (Value, bool) {
 		if !ok {
 			return nil, false
 		}
-		switch {
-		case av.obj < 0 && bv.obj < 0:
+		if av.obj < 0 && bv.obj < 0 {
 			return av, true
-		case av.obj < 0:
-			return PtrV{obj: bv.obj, path: bv.path, nonnil: x.mkIte(c, x.mkBool(false), bv.nonnil)}, true
-		case bv.obj < 0:
-			return PtrV{obj: av.obj, path: av.path, nonnil: x.mkIte(c, av.nonnil, x.mkBool(false))}, true
-		case av.obj == bv.obj && samePath(av.path, bv.path):
-			return PtrV{obj: av.obj, path: av.path, nonnil: x.mkIte(c, av.nonnil, bv.nonnil)}, true
 		}
-		return nil, false
+		var al []PtrAlt
+		add := func(o int, p []int, g *Term) {
+			if g.isFalse() {
+				return
+			}
+			for k := range al {
+				if al[k].obj == o && samePath(al[k].path, p) {
+					al[k].g = x.mkOr(al[k].g, g)
+					return
+				}
+			}
+			al = append(al, PtrAlt{o, p, g})
+		}
+		for _, a := range x.alts(av) {
+			add(a.obj, a.path, x.mkAnd(c, a.g))
+		}
+		nc := x.mkNot(c)
+		for _, a := range x.alts(bv) {
+			add(a.obj, a.path, x.mkAnd(nc, a.g))
+		}
+		if len(al) > 6 {
+			return nil, false
+		}
+		return x.ptrFromAlts(al), true
 	case IfaceV:
 		bv, ok := b.(IfaceV)
 		if !ok {
@@ -476,7 +492,15 @@ func sameVal(a, b Value) bool {
 		return ok && av == bv
 	case PtrV:
 		bv, ok := b.(PtrV)
-		return ok && av.obj == bv.obj && samePath(av.path, bv.path) && av.nonnil == bv.nonnil
+		if !ok || av.obj != bv.obj || !samePath(av.path, bv.path) || av.nonnil != bv.nonnil || len(av.more) != len(bv.more) {
+			return false
+		}
+		for i := range av.more {
+			if av.more[i].obj != bv.more[i].obj || !samePath(av.more[i].path, bv.more[i].path) || av.more[i].g != bv.more[i].g {
+				return false
+			}
+		}
+		return true
 	case IfaceV:
 		bv, ok := b.(IfaceV)
 		if !ok || av.nonnil != bv.nonnil || (av.typ == nil) != (bv.typ == nil) {
